@@ -29,6 +29,9 @@ use std::time::{Duration, SystemTime, UNIX_EPOCH};
 pub const PTTL_NO_EXPIRE: &[u8] = b"-1";
 pub const PTTL_KEY_NOT_FOUND: &[u8] = b"-2";
 pub const RESTORE_NO_EXPIRE: &[u8] = b"0";
+// PTTL returns 0 for a key that will expire within the current millisecond,
+// while RESTORE treats ttl 0 as "no expire". Use the smallest real ttl instead.
+pub const RESTORE_MIN_EXPIRE: &[u8] = b"1";
 const BUSYKEY_ERROR: &[u8] = b"BUSYKEY";
 
 pub fn pttl_to_restore_expire_time(pttl: Vec<u8>) -> Vec<u8> {
@@ -37,8 +40,15 @@ pub fn pttl_to_restore_expire_time(pttl: Vec<u8>) -> Vec<u8> {
         // Reuse this vector
         expire_time.clear();
         expire_time.extend_from_slice(RESTORE_NO_EXPIRE)
+    } else if pttl_is_zero(&expire_time) {
+        expire_time.clear();
+        expire_time.extend_from_slice(RESTORE_MIN_EXPIRE)
     }
     expire_time
+}
+
+fn pttl_is_zero(buf: &[u8]) -> bool {
+    matches!(btoi::btoi::<i64>(buf), Ok(0))
 }
 
 fn pttl_need_to_be_no_expire(buf: &[u8]) -> bool {
